@@ -148,14 +148,14 @@ func (r *Registry) repositories(ctx context.Context, last string, fn func(repos 
 		return "", err
 	}
 	if r.RepositoryListPageSize > 0 || last != "" {
-		q := req.URL.Query()
+		var params []string
 		if r.RepositoryListPageSize > 0 {
-			q.Set("n", strconv.Itoa(r.RepositoryListPageSize))
+			params = append(params, "n", strconv.Itoa(r.RepositoryListPageSize))
 		}
 		if last != "" {
-			q.Set("last", last)
+			params = append(params, "last", last)
 		}
-		req.URL.RawQuery = q.Encode()
+		req.URL.RawQuery = setQueryParams(req.URL.RawQuery, params...)
 	}
 	resp, err := r.do(req)
 	if err != nil {
